@@ -399,12 +399,20 @@ def assume_value(it, v):
 
 def assert_value(it, name, v, kind="post"):
     it.ctx.clause_kind = kind
+    n0 = len(it.ctx.obligations)
     if isinstance(v, QuantVal):
         it.ctx.clause_name = name
-        truth_of_quant(it, v)
-        return
-    t = ops.truth(it, v)
-    it.ctx.oblige(name, t if not isinstance(t, bool) else z3.BoolVal(t), kind=kind)
+        t = truth_of_quant(it, v)
+        if it.formula_mode:
+            # in formula mode the quantifier was skolemised into a term: that term is the goal
+            it.ctx.oblige(name, t if not isinstance(t, bool) else z3.BoolVal(t), kind=kind)
+    else:
+        t = ops.truth(it, v)
+        it.ctx.oblige(name, t if not isinstance(t, bool) else z3.BoolVal(t), kind=kind)
+    if len(it.ctx.obligations) == n0:
+        from .core import EngineError
+
+        raise EngineError(f"clause {name} produced no obligation")
 
 
 # ------------------------------------------------------------------ old-state snapshots
